@@ -73,6 +73,12 @@ def main(tier, seed):
             # the peer trickles bytes instead of being silent: ARTIM must not be re-armed by them
             silent_cases.append(dict(label=[name, 'trickle_after_step', k], acceptor=acceptor,
                                      ops=base + [('idle',), ('tick', 6), ('seg', b'\x04\x00\x00'), ('idle',), ('tick', 6)] + [('idle',)] * 3))
+            # the peer sends an unrecognisable PDU every 6 s: only the first one may (re)start ARTIM (AA-1 / AA-8);
+            # in Sta13 AA-7 answers without touching the timer, so the peer cannot keep the connection open
+            junk = b'\xff\x00\x00\x00\x00\x04junk'
+            silent_cases.append(dict(label=[name, 'junk_every_6s_after_step', k], acceptor=acceptor,
+                                     ops=base + [('idle',)] + [('tick', 6), ('seg', junk), ('idle',), ('idle',)] * 3 +
+                                     [('tick', 1)] + [('idle',)] * 3))
             # stop requested at this quiescent point
             stop_cases.append(dict(label=[name, 'kill_after_step', k], acceptor=acceptor, ops=base + [('kill',)]))
             # peer disconnects after every byte prefix of its next PDU
